@@ -131,6 +131,7 @@ func runCase(c *wk.Ctx, i int, p plan, r *rand.Rand) {
 		hit      bool
 		surfaced map[string]int64
 		stats    map[string]int64
+		bigKeys  bool
 	}
 	done := make(chan result, 1)
 	go func() {
@@ -147,7 +148,13 @@ func runCase(c *wk.Ctx, i int, p plan, r *rand.Rand) {
 			res.sig, res.msg = "open-failed", err.Error()
 			return
 		}
-		cl := wl.NewClient(db, st, r, model.NewKeyGen(r, 40+r.Intn(200)), os.O, 1)
+		kg := model.NewKeyGen(r, 40+r.Intn(200))
+		if i%6 == 4 {
+			// keys of a few KiB: manifest and journal records then span 32 KiB journal blocks (several writes per record)
+			kg.Inflate(r, 1500, 7500)
+			res.bigKeys = true
+		}
+		cl := wl.NewClient(db, st, r, kg, os.O, 1)
 		wit := func(extra map[string]interface{}) map[string]interface{} {
 			m := map[string]interface{}{"plan": p.String(), "options": os.Desc, "last_writes": cl.LastKinds, "client_stats": cl.Stats}
 			lg := st.Logs()
@@ -326,6 +333,9 @@ func runCase(c *wk.Ctx, i int, p plan, r *rand.Rand) {
 		return
 	}
 	c.Count("plans_hit", 1)
+	if res.bigKeys {
+		c.Count("plans_hit_with_keys_of_several_KiB", 1)
+	}
 	c.Count(fmt.Sprintf("hit:%s/%s/%s", p.Kind, vstor.TypeName(p.Type), p.Mode), 1)
 	c.Distinct("fault_cells", fmt.Sprintf("%s/%s/%s/%v/%v", p.Kind, vstor.TypeName(p.Type), p.Mode, p.Short, p.Flip))
 	for k, v := range res.surfaced {
